@@ -235,6 +235,8 @@ pub fn run_check_with_context(opts: &CheckOptions<'_>) -> crate::Result<i32> {
     // Determine fail_fast mode from CLI or config
     let fail_fast = args.fail_fast || config.check.fail_fast;
     let failure_detected = AtomicBool::new(false);
+    // Set when fail_fast actually left a file unprocessed: the run's totals are then partial.
+    let files_skipped = AtomicBool::new(false);
 
     // 3. Process each file (parallel with rayon) using injected context
     let progress = ScanProgress::new(all_files.len() as u64, cli.quiet);
@@ -244,6 +246,7 @@ pub fn run_check_with_context(opts: &CheckOptions<'_>) -> crate::Result<i32> {
         .filter_map(|file_path| {
             // Early exit check for fail_fast mode
             if fail_fast && failure_detected.load(Ordering::Relaxed) {
+                files_skipped.store(true, Ordering::Relaxed);
                 progress.inc();
                 return None;
             }
@@ -416,8 +419,12 @@ pub fn run_check_with_context(opts: &CheckOptions<'_>) -> crate::Result<i32> {
     // 11. Auto-snapshot on successful check if enabled.
     // Only a full scan yields whole-project totals: an explicit file list, --diff or
     // --staged restricts the processed set, and recording those partial totals would
-    // show up as a bogus drop in the trend.
-    let whole_project_scanned = args.files.is_empty() && args.diff.is_none() && !args.staged;
+    // show up as a bogus drop in the trend. The same holds for a run that fail-fast stopped
+    // before the last file (it can still pass, with --warn-only).
+    let whole_project_scanned = args.files.is_empty()
+        && args.diff.is_none()
+        && !args.staged
+        && !files_skipped.load(Ordering::Relaxed);
     if exit_code == EXIT_SUCCESS
         && auto_snapshot_enabled
         && whole_project_scanned
